@@ -2,6 +2,7 @@ import SeqIoModel.Proofs.Fill
 import SeqIoModel.Proofs.FastaStreamGrowth
 import SeqIoModel.Proofs.FastqGrowth
 import SeqIoModel.Proofs.FastaSetGrowth
+import SeqIoModel.Proofs.FastqSetGrowth
 /-!
 # C09 – the buffer grows only as the policy directs and only when a record does not fit
 
@@ -141,5 +142,26 @@ theorem fasta_fitting_never_grows_any_history (inp : List UInt8) (cap : Nat) (hc
       (Fasta.Hist.runM (Fasta.Hist.mkMSt inp cap pol script chunk) ops) = true :=
   ⟨Fasta.Hist.fitting_never_grows_history inp cap hcap pol hpol script hs chunk ops hplain hfit,
    Fasta.Hist.fitting_history_accepted inp cap hcap pol hpol script hs chunk ops hplain hfit⟩
+
+/-- FASTQ record-set reads: chain of requests, buffer-limit iff refused, and for plain set reads every
+request is made while the first group of the batch does not fit -/
+theorem fastq_set_read_growth (inp : List UInt8) (G : Prop) (fuel : Nat) (r : Fastq.Reader) (rs : Fastq.RecordSet)
+    (n : Option Nat) (its : List Spec.FqItem) (hg : Fastq.Good inp G r its)
+    (hfuel : 2 * r.br.src.inp.length + 4 ≤ fuel) :
+    ∃ new b, (Fastq.readRecordSetExact fuel r rs n).1.log = r.log ++ new ∧
+      Fastq.GrowLog r.br.cap new (Fastq.readRecordSetExact fuel r rs n).1.br.cap b ∧
+      ((Fastq.readRecordSetExact fuel r rs n).2.2 = .err .bufferLimit ↔ b = true) ∧
+      (n = none → ∀ c a, (c, a) ∈ new → ¬ Fastq.Fits (inp.drop (Fastq.nextByte r)) c) := by
+  obtain ⟨new, b, h1, h2, h3, h4, _⟩ := Fastq.set_growth_log inp G fuel r rs n its hg hfuel
+  exact ⟨new, b, h1, h2, h3, h4⟩
+
+/-- FASTQ: input whose groups all fit never causes growth under ANY history of single reads, owned reads,
+plain record-set reads, set iteration and position queries -/
+theorem fastq_fitting_never_grows_any_history (inp : List UInt8) (cap : Nat) (hcap : 3 ≤ cap) (pol : Pol)
+    (hwf : Fastq.PolWf1 pol) (script : List ReadEv) (hs : NoFail script) (chunk : Nat)
+    (hfit : Fastq.AllFit inp cap) (ops : List Fastq.Hist.Op) (hops : ∀ op ∈ ops, Fastq.plainOp op = true) :
+    (Fastq.runEnd (Fastq.Hist.mkM inp cap pol script chunk) ops).r.log = [] ∧
+      (Fastq.runEnd (Fastq.Hist.mkM inp cap pol script chunk) ops).r.br.cap = cap :=
+  Fastq.fitting_never_grows_history inp cap hcap pol hwf script hs chunk hfit ops hops
 
 end SeqIo.Thm.C09
